@@ -2,6 +2,8 @@ U = "utils/utilities.py"
 D = "decay/decay.py"
 ENTER = "        old_config = copy(DescriptorFormat.config)\n        self.set_config(**self.new_config)\n        self.old_configs.append(old_config)\n"
 MUTANTS = [
+    ("renderer-remembers-sub-pattern", U, '        return DescriptorFormat.config["sub_decay_pattern"].format(**args)\n', '        if not hasattr(DescriptorFormat, "_sub"):\n            DescriptorFormat._sub = DescriptorFormat.config["sub_decay_pattern"]\n        return DescriptorFormat._sub.format(**args)\n', "C14.7"),
+    ("renderer-default-pattern", U, '            return DescriptorFormat.config["decay_pattern"].format(**args)\n', '            return "{mother} -> {daughters}".format(**args)\n', "C14.7"),
     ("snapshot-at-init", [U, U, U], ["        self.old_configs: list[dict[str, str]] = []", ENTER, "        self.set_config(**self.old_configs.pop())"],
      ["        self.old_config = copy(DescriptorFormat.config)", "        self.set_config(**self.new_config)\n", "        self.set_config(**self.old_config)"], "C14.1"),
     ("single-slot", [U, U, U], ["        self.old_configs: list[dict[str, str]] = []", ENTER, "        self.set_config(**self.old_configs.pop())"],
@@ -18,6 +20,7 @@ MUTANTS = [
     ("patterns-crossed", U, '        self.new_config = {\n            "decay_pattern": decay_pattern,\n            "sub_decay_pattern": sub_decay_pattern,\n        }', '        self.new_config = {\n            "decay_pattern": sub_decay_pattern,\n            "sub_decay_pattern": decay_pattern,\n        }', "C14.1"),
 ]
 BENIGN = [
+    ("keyword-format", U, '            return DescriptorFormat.config["decay_pattern"].format(**args)\n', '            return DescriptorFormat.config["decay_pattern"].format(mother=mother, daughters=daughters)\n'),
     ("peek-pop", U, "        self.set_config(**self.old_configs.pop())", "        previous = self.old_configs.pop()\n        self.set_config(**previous)"),
     ("dict-copy", U, "        old_config = copy(DescriptorFormat.config)\n", "        old_config = dict(DescriptorFormat.config)\n"),
 ]
